@@ -318,12 +318,36 @@ func c05Comparisons(c *Ctx, rule string) {
 	}
 	// parser's accepted set
 	if pf := c.W.F("sql.(*Parser).ComparisonPredicate"); pf != nil {
+		// the operator is taken by the one match call that lists the comparison operators (other match calls in the
+		// production belong to its operands): the call that shares the most tokens with the evaluator's arms
 		var toks []string
+		best := -1
 		inspectBody(pf.Decl.Body, func(x ast.Node) bool {
 			if call, ok := x.(*ast.CallExpr); ok && pf.CallIs(call, "sql.Parser.match") && len(call.Args) > 1 {
+				var these []string
+				overlap := 0
 				for _, a := range call.Args {
 					if cst := pf.namedConst(a); cst != nil {
-						toks = append(toks, cst.Name())
+						these = append(these, cst.Name())
+						if seen[cst.Name()] {
+							overlap++
+						}
+					}
+				}
+				if overlap > best {
+					best, toks = overlap, these
+				}
+			}
+			return true
+		})
+		// operators handled through a table keyed by the operator (`ops[q.CompOp]`) have an arm there
+		viaTable := false
+		ast.Inspect(f.Decl.Body, func(x ast.Node) bool {
+			if ix, ok := x.(*ast.IndexExpr); ok && exprKey(ix.Index) == exprKey(sw.Tag) {
+				for k := range tableLiteral(f, ix.X) {
+					if !seen[k] {
+						seen[k] = true
+						viaTable = true
 					}
 				}
 			}
@@ -335,6 +359,10 @@ func c05Comparisons(c *Ctx, rule string) {
 		}
 		sort.Strings(toks)
 		sort.Strings(have)
+		if viaTable && strings.Join(toks, ",") == strings.Join(have, ",") {
+			c.Undecided(rule, f.Name+"|case-set", "some comparison operators are evaluated through a table of functions: the set of operators is complete, what each entry computes is not analysed")
+			return
+		}
 		c.Check(strings.Join(toks, ",") == strings.Join(have, ","), rule, f.Name+"|case-set", sw.Pos(), "evaluator arms = operators accepted by the parser: "+strings.Join(have, ","), "the parser accepts ["+strings.Join(toks, ",")+"] as comparison operators but the evaluator has arms for ["+strings.Join(have, ",")+"]")
 		// CompOp is the matched token
 		okOp := false
@@ -953,10 +981,14 @@ func c06JoinMapping(c *Ctx, rule string) {
 			}
 			for si := 0; si < 2; si++ {
 				info, ok := g.EdgeInfo(b, si)
-				if !ok || info.Case {
+				if !ok {
 					continue
 				}
-				cond, v := ast.Unparen(info.Cond), info.Val
+				test, ok := info.Test()
+				if !ok {
+					continue
+				}
+				cond, v := ast.Unparen(test), info.Val
 				for {
 					u, isNot := cond.(*ast.UnaryExpr)
 					if !isNot || u.Op != token.NOT {
@@ -964,11 +996,18 @@ func c06JoinMapping(c *Ctx, rule string) {
 					}
 					cond, v = ast.Unparen(u.X), !v
 				}
-				call, isCall := isMatchCall(f, cond)
-				if !isCall || len(call.Args) != 1 || v != val {
-					continue
+				got := ""
+				if call, isCall := isMatchCall(f, cond); isCall && len(call.Args) == 1 {
+					if cst := f.namedConst(call.Args[0]); cst != nil {
+						got = cst.Name()
+					}
+				} else if be, isCmp := cond.(*ast.BinaryExpr); isCmp && be.Op == token.EQL && strings.HasSuffix(exprKey(be.X), ".Type") {
+					// the decision taken on the current token's type before it is consumed
+					if cst := f.namedConst(be.Y); cst != nil {
+						got = cst.Name()
+					}
 				}
-				if cst := f.namedConst(call.Args[0]); cst == nil || cst.Name() != kw {
+				if got != kw || v != val {
 					continue
 				}
 				s := b.Succs[si]
@@ -979,17 +1018,41 @@ func c06JoinMapping(c *Ctx, rule string) {
 		}
 		return false
 	}
+	// the variables whose value is copied into the stored join type (results of an extracted decision)
+	srcs := map[types.Object]bool{jobj: true}
+	for changed := true; changed; {
+		changed = false
+		inspectBody(f.Decl.Body, func(x ast.Node) bool {
+			if as, ok := x.(*ast.AssignStmt); ok && len(as.Lhs) == len(as.Rhs) {
+				for i, l := range as.Lhs {
+					lid, ok1 := l.(*ast.Ident)
+					rid, ok2 := ast.Unparen(as.Rhs[i]).(*ast.Ident)
+					if ok1 && ok2 && srcs[f.ObjOf(lid)] && f.ObjOf(rid) != nil && !srcs[f.ObjOf(rid)] {
+						if _, isVar := f.ObjOf(rid).(*types.Var); isVar {
+							srcs[f.ObjOf(rid)] = true
+							changed = true
+						}
+					}
+				}
+			}
+			return true
+		})
+	}
 	inspectBody(f.Decl.Body, func(x ast.Node) bool {
-		as, ok := x.(*ast.AssignStmt)
-		if !ok || len(as.Lhs) != 1 || len(as.Rhs) != 1 {
+		as0, ok := x.(*ast.AssignStmt)
+		if !ok || len(as0.Lhs) != len(as0.Rhs) {
 			return true
 		}
-		id, ok := as.Lhs[0].(*ast.Ident)
-		if !ok || f.ObjOf(id) != jobj {
-			return true
+		var as *ast.AssignStmt
+		var cst *types.Const
+		for i, l := range as0.Lhs {
+			if id, ok := l.(*ast.Ident); ok && srcs[f.ObjOf(id)] {
+				if k := f.namedConst(as0.Rhs[i]); k != nil {
+					as, cst = as0, k
+				}
+			}
 		}
-		cst := f.namedConst(as.Rhs[0])
-		if cst == nil {
+		if as == nil {
 			return true
 		}
 		val := cst.Name()
@@ -1012,6 +1075,55 @@ func c06JoinMapping(c *Ctx, rule string) {
 		}
 		return true
 	})
+	// the mapping written as a table: `if v, ok := table[p.Cur().Type]; ok { jt = v }` over an initial INNER_JOIN
+	inspectBody(f.Decl.Body, func(x ast.Node) bool {
+		as, ok := x.(*ast.AssignStmt)
+		if !ok || len(as.Lhs) != len(as.Rhs) {
+			return true
+		}
+		for i, l := range as.Lhs {
+			lid, ok := l.(*ast.Ident)
+			if !ok || !srcs[f.ObjOf(lid)] {
+				continue
+			}
+			rid, ok := ast.Unparen(as.Rhs[i]).(*ast.Ident)
+			if !ok {
+				continue
+			}
+			if rhs, _, ok := f.definedBy(f.Decl.Body, f.ObjOf(rid)); ok {
+				if ix, ok := ast.Unparen(rhs).(*ast.IndexExpr); ok && strings.HasSuffix(exprKey(ix.Index), ".Type") {
+					for k, v := range tableLiteral(f, ix.X) {
+						if cst := f.namedConst(v); cst != nil {
+							if _, dup := got[k]; !dup {
+								got[k] = cst.Name()
+							}
+							stored[cst.Name()] = true
+						}
+					}
+				}
+			}
+		}
+		return true
+	})
+	ast.Inspect(f.Decl.Body, func(x ast.Node) bool {
+		if vs, ok := x.(*ast.ValueSpec); ok {
+			for i, nm := range vs.Names {
+				if srcs[f.ObjOf(nm)] && i < len(vs.Values) {
+					if cst := f.namedConst(vs.Values[i]); cst != nil {
+						stored[cst.Name()] = true
+						if cst.Name() == "INNER_JOIN" {
+							if _, l := got["LEFT"]; l {
+								if _, r := got["RIGHT"]; r {
+									hasDefaultInner = true // every other value comes from the table of prefixes
+								}
+							}
+						}
+					}
+				}
+			}
+		}
+		return true
+	})
 	for k, v := range want {
 		c.Check(got[k] == v, rule, f.Name+"|keyword|"+k, f.Decl.Pos(), k+" -> "+v, "the "+k+" keyword yields join type "+got[k]+", expected "+v)
 	}
@@ -1031,7 +1143,15 @@ func c06JoinMapping(c *Ctx, rule string) {
 	} else {
 		litLoc, _ := g.Locate(lits[0])
 		start := Loc{loopBody, -1}
+		// a variable declared inside the loop body starts every iteration with its zero value: nothing is inherited
+		fresh := false
+		if fs, ok := loopBody.Stmt.(*ast.ForStmt); ok && jobj.Pos() >= fs.Body.Pos() && jobj.Pos() < fs.Body.End() {
+			fresh = true
+		}
 		unassigned, _ := g.Forward(&start, nil, func(n ast.Node, at Loc) Verdict {
+			if fresh {
+				return Cut
+			}
 			if as, ok := n.(*ast.AssignStmt); ok {
 				for i, l := range as.Lhs {
 					if id, ok := l.(*ast.Ident); ok && f.ObjOf(id) == jobj && i < len(as.Rhs) && f.namedConst(as.Rhs[i]) != nil {
